@@ -277,26 +277,32 @@ class Model:
         f = opt.methods['set_lsb0']
         self.set_lsb0 = f
         local_alias = {}
+        tables = []
         for n in ast.walk(f.node):
             if isinstance(n, ast.Assign) and len(n.targets) == 1 and isinstance(n.targets[0], ast.Name):
                 name = n.targets[0].id
-                if name in ('lsb0_methods', 'msb0_methods') and isinstance(n.value, ast.Dict):
-                    mode = name[:4]
+                # a mode table: a dict literal of dict literals {Class: {'slot': Class.func, ...}, ...} (whatever it is called)
+                if isinstance(n.value, ast.Dict) and n.value.values and all(isinstance(v, ast.Dict) for v in n.value.values):
                     d = {}
                     for k, v in zip(n.value.keys, n.value.values):
-                        if not isinstance(v, ast.Dict):
-                            raise AnalysisError(f"{name}: inner table is not a dict literal")
                         kc = local_alias.get(ast.unparse(k), ast.unparse(k))
                         for sk, sv in zip(v.keys, v.values):
                             if not (isinstance(sk, ast.Constant) and isinstance(sv, ast.Attribute)):
                                 raise AnalysisError(f"{name}: entry {ast.unparse(sk)} is not 'slot': Class.func")
                             vc = local_alias.get(ast.unparse(sv.value), ast.unparse(sv.value))
                             d[(kc, sk.value)] = (vc, sv.attr, sv.lineno)
-                    self.switch[mode] = d
+                    tables.append((name, d))
                 elif isinstance(n.value, ast.Attribute):
                     local_alias[name] = n.value.attr
-        if set(self.switch) != {'lsb0', 'msb0'}:
-            raise AnalysisError("anchor vanished: lsb0_methods/msb0_methods dict literals not found in Options.set_lsb0")
+        if len(tables) != 2:
+            raise AnalysisError("anchor vanished: the two mode tables (dict literals of dict literals) not found in Options.set_lsb0")
+        # which is which: the lsb0 table is the one naming more *_lsb0 variants
+        score = [sum(v[1].endswith('_lsb0') for v in d.values()) - sum(v[1].endswith('_msb0') for v in d.values()) for _, d in tables]
+        if score[0] == score[1]:
+            raise AnalysisError("Options.set_lsb0: cannot tell the lsb0 table from the msb0 table by their variants (needs a human)")
+        hi = 0 if score[0] > score[1] else 1
+        self.switch = {'lsb0': tables[hi][1], 'msb0': tables[1 - hi][1]}
+        self.switch_names = {'lsb0': tables[hi][0], 'msb0': tables[1 - hi][0]}
         for mode, d in self.switch.items():
             for (c, s), (vc, vf, _) in d.items():
                 self.slots[(c, s)][mode] = (vc, vf)
@@ -344,7 +350,22 @@ class Model:
             if isinstance(n, ast.If) and 'byteorder' in ast.unparse(n.test) and 'little' in ast.unparse(n.test):
                 found = True
                 self.byteorder_if = n
-                for branch, out in ((n.body, self.aliases_le), (n.orelse, self.aliases_be)):
+
+                def holds(t, order):
+                    """Value of the branch test on a host of the given byte order; None if the test has another shape."""
+                    if isinstance(t, ast.UnaryOp) and isinstance(t.op, ast.Not):
+                        v = holds(t.operand, order)
+                        return None if v is None else not v
+                    if isinstance(t, ast.Compare) and len(t.ops) == 1 and isinstance(t.ops[0], (ast.Eq, ast.NotEq)) and \
+                            ast.unparse(t.left) in ('byteorder', 'sys.byteorder') and isinstance(t.comparators[0], ast.Constant) \
+                            and t.comparators[0].value in ('little', 'big'):
+                        eq = (t.comparators[0].value == order)
+                        return eq if isinstance(t.ops[0], ast.Eq) else not eq
+                    return None
+                on_little, on_big = holds(n.test, 'little'), holds(n.test, 'big')
+                self.byteorder_test_ok = (on_little is not None and on_big is not None and on_little != on_big)
+                le_branch, be_branch = (n.body, n.orelse) if on_little in (True, None) else (n.orelse, n.body)
+                for branch, out in ((le_branch, self.aliases_le), (be_branch, self.aliases_be)):
                     for s in branch:
                         for c in ast.walk(s):
                             if isinstance(c, ast.Call) and isinstance(c.func, ast.Attribute) and c.func.attr == 'extend':
